@@ -643,6 +643,24 @@ def check_k1(crate, b, evs, writes, aggs, dstores, lens, masks):
                 problems.append("raw writes to %s (%s) are not followed by any truncation to its length"
                                 % (show(obj), "; ".join(sorted({w.how for w in ws})) or "aggregate"))
             continue
+        # a mask of the single word L / BU (forms b1, b3) truncates the object only if no raw write can reach a word
+        # above it: loops over all N words / all allocated words need the all-words canonicaliser (mod2n)
+        if ms and all(m.form in ("b1", "b3") for m in ms) and obj[0] in ("param",):
+            for w in ws:
+                if getattr(w, "is_mask", False) or _and_only(w):
+                    continue
+                if w.index is not None and w.index[0] == "iv":
+                    src = b.iter_source(w.index[1])
+                    hi = src[3][1] if src[0] == "agg" and src[1].startswith("Range") and len(src[3]) == 2 else None
+                    bounded = hi is not None and mir.contains(hi, lambda x: is_call(x, "capacity_from_bit_len") or is_call(x, "int_len"))
+                    if not bounded:
+                        problems.append("the truncation %s clears only the word holding bit len, but the loop over %s writes every word: "
+                                        "rhs bits landing in higher words stay in storage" % (ms[0].detail, show(src)))
+                        break
+                elif w.index is not None and w.index[0] == "iter":
+                    problems.append("the truncation %s clears only the word holding bit len, but every word is written through an iterator"
+                                    % ms[0].detail)
+                    break
         for loc in wl:
             ok, bad = b.must_pass_to_return(loc, [m.loc for m in ms])
             if not ok:
